@@ -7,6 +7,8 @@ that can hold scheduled step work (a delayed TickAddEvent retry) is consulted on
 computed by a predicate with the same coverage; FIFO discipline of the tick buffer; (R3) an idle
 check is never consumed by the very drain loop during which it was scheduled unless the mailbox
 has been collected in between; (R4) both idle announcements use the same quiescence predicate.
+Also (R2) every WorkflowIdleEvent / CommandScheduleIdleCheck built by the reducer module carries the positive path fact
+`_check_idle_state(<state>)` (the deferred idle check re-evaluates the predicate; it never trusts the request).
 Not decided: real timing.
 """
 
@@ -16,7 +18,7 @@ import ast
 
 from ..astx import attr_reads, attr_writes, call_name, calls_named, enclosing_stmt, expand, facts_at, has_fact, kwarg, last
 from ..cfg import CFG, exprs_in_node
-from ..index import AnchorError, FuncNode, enclosing_function, parent, qualname_of, walk_shallow
+from ..index import AnchorError, FuncNode, ancestors, enclosing_function, parent, qualname_of, walk_shallow
 from ..selftest import Twin
 from ._engine import CL, CL_REL, RUNNER, branch_for, command_constructions, param
 
@@ -125,6 +127,20 @@ def run(chk) -> None:
            reason="a path returns without starting or queuing the event")
 
     # ---------------------------------------------------------------- R2 volatile work inventory
+    # the reducer announces / schedules idle only under its quiescence predicate, evaluated on the state it is reducing *at that
+    # moment* (the deferred TickIdleCheck re-evaluates it: ticks reduced in between may have started work)
+    from ..astx import facts_at as _facts_at
+    mrt, rt = repo.func(f"{CL}:_reduce_tick")
+    idle_pubs = [(f2, c) for f2 in mrt.functions.values() for c in ast.walk(f2) if isinstance(c, ast.Call) and last(call_name(c)) in ("WorkflowIdleEvent", "CommandScheduleIdleCheck")
+                 and enclosing_function(c) is f2 and not any(isinstance(a, ast.Call) and last(call_name(a)) == "isinstance" for a in ancestors(c))]
+    chk.floor("C03.R2", "idle announcements / idle-check requests constructed by the reducer module", len(idle_pubs), 2)
+    for f2, c in idle_pubs:
+        cfgt = CFG(f2)
+        for n in cfgt.nodes_of(enclosing_stmt(c)):
+            f = _facts_at(cfgt, n, expand_locals=True)
+            guarded = any(a.startswith("_check_idle_state(") and pol for a, pol in f)
+            chk.ob("C03.R2", f"`{last(call_name(c))}` is emitted by the reducer only when _check_idle_state holds for the state being reduced", guarded, m=mrt, node=c, fn=f2,
+                   instance=f"idle-guarded:{last(call_name(c))}", reason=f"facts on the path: {sorted(f)[:6]} — no positive `_check_idle_state(…)`: idle is announced although a tick reduced since the check was requested may have started work")
     mr, pc = repo.func(f"{RUNNER}.process_command")
     _, run_fn = repo.func(f"{RUNNER}.run")
     cmd = param(pc, 1)
@@ -250,6 +266,8 @@ def run(chk) -> None:
 
 _P = CL_REL
 TWINS = [
+    Twin("deferred idle check trusts the request instead of re-evaluating", CL_REL, "        if _check_idle_state(init):\n            return init, [CommandPublishEvent(WorkflowIdleEvent())]", "        if init.is_running:\n            return init, [CommandPublishEvent(WorkflowIdleEvent())]", "C03.R2"),
+    Twin("benign: idle predicate held in a local", CL_REL, "        if _check_idle_state(init):\n            return init, [CommandPublishEvent(WorkflowIdleEvent())]", "        quiescent = _check_idle_state(init)\n        if quiescent:\n            return init, [CommandPublishEvent(WorkflowIdleEvent())]", None),
     Twin("drain skipped after completion", _P, "    # enqueue next events if there are any\n    if not is_completed:\n        while (", "    # enqueue next events if there are any\n    if not is_completed and did_complete_step:\n        while (", "C03.R1"),
     Twin("drain only one", _P, "            event = worker_state.queue.pop(0)\n            subcommands = _add_or_enqueue_event(\n                event, tick.step_name, worker_state, now_seconds\n            )\n            commands.extend(subcommands)",
          "            event = worker_state.queue.pop(0)\n            subcommands = _add_or_enqueue_event(\n                event, tick.step_name, worker_state, now_seconds\n            )\n            commands.extend(subcommands)\n            break", "C03.R1"),
